@@ -357,6 +357,8 @@ pub struct ExploreStats {
     pub capped: bool,
     pub watchdog_fired: u64,
     pub diverged: u64,
+    /// a few executed schedules: (prefix, which thread took which lock in order, outputs)
+    pub samples: Vec<serde_json::Value>,
 }
 
 /// Depth-first exploration with a preemption bound. `exec` is run in a forked
@@ -382,6 +384,7 @@ pub fn explore(
         capped: false,
         watchdog_fired: 0,
         diverged: 0,
+        samples: Vec::new(),
     };
     let t0 = Instant::now();
     let mut stack: Vec<Vec<usize>> = vec![vec![]];
@@ -438,6 +441,13 @@ pub fn explore(
         stats.choice_points += out.result.trace.len() as u64;
         stats.max_trace = stats.max_trace.max(out.result.trace.len());
         stats.watchdog_fired += out.result.watchdog_fired as u64;
+        if stats.samples.len() < 4 && (stats.executions == 1 || stats.executions % 97 == 0) {
+            stats.samples.push(serde_json::json!({
+                "schedule_prefix": prefix,
+                "order": out.result.trace.iter().map(|c| format!("t{} {}", c.enabled[c.chosen], c.what.get(c.chosen).cloned().unwrap_or_default())).collect::<Vec<_>>(),
+                "outcome": out.outcome,
+            }));
+        }
         *stats.distinct_outcomes.entry(out.outcome.clone()).or_default() += 1;
         for (k, d) in &out.violations {
             if stats.violations.len() < 50 {
